@@ -24,6 +24,8 @@ pub use zonesmeta::CLIMATEMETADATA;
 
 /// Diccionario con el valor de la radiación total por orientación para el mes de julio
 pub fn total_radiation_in_july_by_orientation(climate: &ClimateZone) -> HashMap<Orientation, f32> {
+    #[cfg(cteenergymodel_verif)]
+    let _verif_monthly_scope = crate::verif_hooks::lock_scope(&*MONTHLYRADDATA, "MONTHLYRADDATA");
     MONTHLYRADDATA
         .lock()
         .unwrap_or_else(|e| e.into_inner())
